@@ -412,7 +412,10 @@ pub fn check_fuzz_input(ctx: &FuzzCtx, data: &[u8]) -> CheckResult {
     }
 }
 
-pub fn replay(_check: &str, i: &Value) -> Option<CheckResult> {
+pub fn replay(check: &str, i: &Value) -> Option<CheckResult> {
+    if check == "lab" {
+        return crate::props::c12::replay_for(P, i);
+    }
     let t = crate::table();
     let name = i.get("type")?.as_str()?;
     let v: Val = serde_json::from_value(i.get("value")?.clone()).ok()?;
@@ -494,13 +497,25 @@ pub fn run(tier: Tier) -> i32 {
             }
         }
     }
+    // the same edits on generated structs (layouts no shipped packet has, e.g. three and more mandatory tags at one level)
+    match crate::props::c12::lab_side(P, &ctx, tier) {
+        Ok(s) => {
+            let mut s = s;
+            let vs = std::mem::take(&mut s.violations);
+            stats.merge(s);
+            for v in vs {
+                ctx.record(Err(v), &mut stats);
+            }
+        }
+        Err(code) => return code,
+    }
     ctx.finish(
         stats,
         "shipped types with tagged fields x proptest-generated canonical values x edits of the group list the reference encoder returns per struct level (top level and every nested container, enclosing length prefixes recomputed): every permutation of <= 4 (thorough 6) present tagged groups and sampled ones above; each present non-repeated group duplicated to every position; every non-empty subset of mandatory groups removed; a tag unknown to the whole packet tree inserted at every gap. non-trivial = >= 3 tagged groups present at the edited level, or the level is nested; distinct by (type, value, level, edit)",
         &[
             "foreign tags are chosen unknown to every level of the packet tree, so re-offering the remainder to the enclosing level cannot adopt them",
             "inside a Vec element (failure = end of vector, documented in zvt_builder) duplicates/removals are judged by the weaker prefix predicate",
-            "lab structs (generated programs) are covered by the C12 lab run, not here",
+            "generated structs: a program of random #[derive(Zvt)] definitions (C12's generator incl. its directed families) is compiled against /repo's macro in a private lab crate and the same edit oracle is applied to canonical values of each (classes prefixed lab:)",
         ],
         false,
     )
